@@ -552,6 +552,107 @@ def nontrivial(op, out):
     return not (out.startswith('bad-op') or out == 'ok' or out.startswith('nodes '))
 
 
+# ---------------------------------------------------------------------------------------------
+# run level: hooked real passes
+# ---------------------------------------------------------------------------------------------
+def gen_run(rng, tier):
+    ops = []
+    reps = 1 if tier == 'quick' else 4
+    for _ in range(reps):
+        # 2-D: refine, coarsen, anisotropic, boundary layer; every pass kind alone and inside ref_adapt_pass
+        ops.append('run 2 %d %d iso %s %s' % (rng.randrange(3, 6), rng.randrange(1, 99), hx(rng.uniform(0.12, 0.25)), 'aa'))
+        ops.append('run 2 %d %d iso %s %s' % (rng.randrange(6, 9), rng.randrange(1, 99), hx(rng.uniform(0.35, 0.6)), 'aa'))
+        ops.append('run 2 %d %d aniso %s %s' % (rng.randrange(4, 7), rng.randrange(0, 99), hx(rng.uniform(0.08, 0.15)), 'aaa'))
+        ops.append('run 2 %d %d %s %s %s' % (rng.randrange(5, 8), rng.randrange(1, 99), rng.choice(['bl', 'lin']),
+                                             hx(rng.uniform(0.15, 0.3)),
+                                             ''.join(rng.choice('scwma') for _ in range(5))))
+        # 3-D
+        ops.append('run 3 3 %d iso %s %s' % (rng.randrange(1, 99), hx(rng.uniform(0.25, 0.35)), 'a'))
+        ops.append('run 3 4 %d iso %s %s' % (rng.randrange(1, 99), hx(rng.uniform(0.6, 0.9)), 'aa'))
+        ops.append('run 3 3 %d aniso %s %s' % (rng.randrange(0, 99), hx(rng.uniform(0.15, 0.25)), 'aa'))
+        ops.append('run 3 3 %d %s %s %s' % (rng.randrange(1, 99), rng.choice(['lin', 'bl']), hx(rng.uniform(0.2, 0.3)),
+                                            ''.join(rng.choice('scma') for _ in range(4))))
+    ops += ['run 4 3 1 iso %s a' % hx(0.3), 'run 2 3 1 iso 0 a', 'bogus']
+    return ops
+
+
+def parse_rec(line):
+    sec = line.split(' | ')
+    hw = sec[0].split()
+    r = {'phase': hw[1], 'kind': hw[2], 'ints': [int(x) for x in hw[3:6]]}
+    for w in hw[6:]:
+        k, v = w.split('=')
+        r[k] = v
+    r['twod'] = r['twod'] == '1'
+    r['valid'] = [c == '1' for c in r['valid']]
+    r['xyz'], r['reals'], r['glob'] = {}, {}, {}
+    for w in sec[1].split()[1:]:
+        f = w.split(':')
+        v = int(f[0])
+        r['glob'][v] = int(f[1])
+        r['reals'][v] = f[2:]
+        r['xyz'][v] = tuple(unhx(x) for x in f[2:5])
+    r['cells'] = {}
+    for k, sct in zip(('tet', 'tri', 'edg'), sec[2:5]):
+        r['cells'][k] = sorted([int(x) for x in w.split(',')] for w in sct.split()[1:])
+    return r
+
+
+def oracle_run(ops, impl):
+    """C13 stated directly on the records of the real passes: after every accept (split, collapse, swap, cavity
+    replacement, accepted trial) and every vertex move the star of the touched vertices is locally valid; a
+    rejected trial / a restored smoothing attempt has the structural hash of its begin record"""
+    out = []
+    pend = {}
+    nrec = 0
+    for i, line in enumerate(impl):
+        if not line.startswith('rec '):
+            continue
+        nrec += 1
+        r = parse_rec(line)
+        kind, phase = r['kind'], r['phase']
+        if phase == 'begin':
+            pend[kind] = r
+            continue
+        b = pend.pop(kind, None)
+        if b is None:
+            out.append((0, 'record %d: %s %s without begin' % (i, phase, kind)))
+            continue
+        ints = r['ints']
+        touched = [v for v, ok in zip(ints, r['valid']) if ok and v >= 0]
+        gone = [v for v, ok in zip(ints, r['valid']) if not ok and v >= 0]
+        where = 'record %d (%s %s %s)' % (i, phase, kind, ints)
+        if phase == 'accept' or (phase == 'end' and r['reals'].get(ints[0], [])[:3] != b['reals'].get(ints[0], [])[:3]):
+            bad = local_valid(r['twod'], r['cells'], r['xyz'], touched, gone)
+            if bad:
+                out.append((0, where + ': not locally valid: ' + '; '.join(bad[:3])))
+            if kind == 'collapse_edge':
+                if r['valid'][1]:
+                    out.append((0, where + ': removed vertex still valid'))
+                if int(r['utop']) != b['glob'].get(ints[1]):
+                    out.append((0, where + ': global id of the removed vertex not on the unused list'))
+            if phase == 'end' and r['cells'] != b['cells']:
+                out.append((0, where + ': a vertex move changed cells'))
+        elif phase == 'reject':
+            if r['hash'] != b['hash']:
+                out.append((0, where + ': rejected attempt changed the mesh (structural hash differs)'))
+            if r['cells'] != b['cells']:
+                out.append((0, where + ': rejected attempt changed the star'))
+            if r['valid'][2]:
+                out.append((0, where + ': trial vertex still valid'))
+            if any(ints[2] in c[:NP[k]] for k, rows in r['cells'].items() for c in rows):
+                out.append((0, where + ': trial vertex still referenced'))
+        elif phase == 'end':  # not moved
+            if r['reals'].get(ints[0]) != b['reals'].get(ints[0]):
+                out.append((0, where + ': coordinates restored but metric not'))
+            if r['hash'] != b['hash']:
+                out.append((0, where + ': restored smoothing attempt changed the mesh (structural hash differs)'))
+    return out[:20]
+
+
 FN = Stream('meshops_fn', 'h_meshops', 'meshops', gen_fn, oracle=oracle_fn, whitebox=['ref_swap'],
             nontrivial=nontrivial)
-STREAMS = [FN]
+RUN = Stream('meshops_run', 'h_meshops', 'meshops', gen_run, oracle=oracle_run, kind='validate',
+             whitebox=['ref_swap'], harness_args=('run',), driver_args=('validate',), session='run',
+             nontrivial=lambda op, out: out.startswith('rec'))
+STREAMS = [FN, RUN]
